@@ -661,7 +661,7 @@ func TestPropMutationsBreakVerification(t *testing.T) {
 	ctx := context.Background()
 	pool := keys.Pool()
 	byName := map[string]int{}
-	ev.Check(t, 2500, 15000, func(t *rapid.T) {
+	ev.Check(t, 2500, 100000, func(t *rapid.T) {
 		g := sgen.New(t, sgen.Opts{BigMaps: rapid.IntRange(0, 3).Draw(t, "big") == 0})
 		step, canonMap := g.Step()
 		penv := g.EnvMap("penv", 4)
